@@ -117,10 +117,13 @@ type qStore struct {
 	// suspended: quotas that received usage which did not pass this scheduler's
 	// admission (C03's "used <= max" invariant is suspended for exactly these).
 	suspended map[string]bool
+	// builtin: ElasticQuota OBJECTS an administrator stored for the built-in default / system quota (to lower their max).
+	// Kept apart from quotas: the reference models treat the built-in quotas as internal. Only the C19 mode generates them.
+	builtin map[string]*mQuota
 }
 
 func newQStore() *qStore {
-	return &qStore{quotas: map[string]*mQuota{}, pods: map[string]*mPod{}, nodes: map[string]*mNode{}, suspended: map[string]bool{}}
+	return &qStore{quotas: map[string]*mQuota{}, pods: map[string]*mPod{}, nodes: map[string]*mNode{}, suspended: map[string]bool{}, builtin: map[string]*mQuota{}}
 }
 
 func (s *qStore) suspendChain(q string) {
@@ -233,6 +236,18 @@ type qEvent struct {
 // events it produces, or ok=false when the op is not applicable in this state.
 func (s *qStore) apply(op *qOp) (evs []qEvent, ok bool) {
 	switch op.K {
+	case "builtin_quota_set":
+		if op.Q != extension.DefaultQuotaName && op.Q != extension.SystemQuotaName {
+			return nil, false
+		}
+		s.rv++
+		q := &mQuota{Name: op.Q, Parent: extension.RootQuotaName, Lent: true, Max: op.Max, Min: rl{}, rv: s.rv}
+		old := s.builtin[op.Q]
+		s.builtin[op.Q] = q
+		if old == nil {
+			return []qEvent{{"add", "quota", nil, q.obj()}}, true
+		}
+		return []qEvent{{"update", "quota", old.obj(), q.obj()}}, true
 	case "quota_create":
 		if s.quotas[op.Q] != nil || op.Q == "" {
 			return nil, false
@@ -584,6 +599,15 @@ func (quotaEngine) Generate(p *sim.Plan, g *sim.Rng) {
 		return op
 	}
 	for len(ops) < nOps {
+		if p.Prop == "C19" && g.Bool(0.03) {
+			// an administrator stores / changes the object of a built-in quota (lowering its max)
+			name := extension.DefaultQuotaName
+			if g.Bool(0.25) {
+				name = extension.SystemQuotaName
+			}
+			add(qOp{K: "builtin_quota_set", Q: name, Max: genRL(g, big, 2000, 40000)})
+			continue
+		}
 		x := g.Intn(100)
 		switch {
 		case x < 14 || len(qNames) < 2:
@@ -840,18 +864,20 @@ type qSim struct {
 	queues map[string][]qEvent // per informer stream
 	busy   map[string]bool
 	// what the pod informer delivered last (the scheduler's view of a pod)
-	delivered              map[string]*corev1.Pod
-	processed              map[string]*corev1.Pod
-	schedQ                 []qOp
-	bindQ                  []func()
-	quotaAdding            string
-	knownQuotas            map[string]bool // quotas whose add has been handled completely (they define the manager's resource dimensions)
-	inFlight               map[string]bool
-	foreign, everScheduled map[string]bool
-	apiDone                bool
-	attempts               int
-	c19Echo                map[any]bool // C19 mode: new-object pointers of the pod updates that echo a bind of this scheduler
-	c19StaleEcho           map[any]bool
+	delivered                 map[string]*corev1.Pod
+	processed                 map[string]*corev1.Pod
+	schedQ                    []qOp
+	bindQ                     []func()
+	quotaAdding               string
+	rebuildSeq, rebuildActive int             // deliveries of tree-rebuilding quota updates: +1 at start and at end / currently in progress
+	admittedUnknown           map[string]bool // quota label -> a pod carrying it was admitted while the plugin did not know that quota
+	knownQuotas               map[string]bool // quotas whose add has been handled completely (they define the manager's resource dimensions)
+	inFlight                  map[string]bool
+	foreign, everScheduled    map[string]bool
+	apiDone                   bool
+	attempts                  int
+	c19Echo                   map[any]bool // C19 mode: new-object pointers of the pod updates that echo a bind of this scheduler
+	c19StaleEcho              map[any]bool
 }
 
 func newPlugin(cfg qCfg) *Plugin {
@@ -941,11 +967,28 @@ func (s *qSim) deliver(ev qEvent) {
 		switch ev.kind {
 		case "add":
 			s.quotaAdding = ev.new.(*v1alpha1.ElasticQuota).Name
+			if s.admittedUnknown[s.quotaAdding] {
+				s.r.Tag("admitted-while-own-quota-unknown")
+			}
 			s.pl.OnQuotaAdd(ev.new)
 			s.quotaAdding = ""
 			s.knownQuotas[ev.new.(*v1alpha1.ElasticQuota).Name] = true
 		case "update":
+			oq, nq := ev.old.(*v1alpha1.ElasticQuota), ev.new.(*v1alpha1.ElasticQuota)
+			// an update that changes the quota's place or kind in the tree (parent, is-parent, allow-lent) rebuilds the tree;
+			// the rebuild clears every quota's runtime in place
+			rebuilds := oq.Labels[extension.LabelQuotaParent] != nq.Labels[extension.LabelQuotaParent] ||
+				oq.Labels[extension.LabelQuotaIsParent] != nq.Labels[extension.LabelQuotaIsParent] ||
+				oq.Labels[extension.LabelAllowLentResource] != nq.Labels[extension.LabelAllowLentResource]
+			if rebuilds {
+				s.rebuildSeq++
+				s.rebuildActive++
+			}
 			s.pl.OnQuotaUpdate(ev.old, ev.new)
+			if rebuilds {
+				s.rebuildSeq++
+				s.rebuildActive--
+			}
 		case "delete":
 			s.pl.OnQuotaDelete(ev.old)
 			delete(s.knownQuotas, ev.old.(*v1alpha1.ElasticQuota).Name)
@@ -1043,18 +1086,42 @@ func (s *qSim) cycle(op qOp, strict bool) {
 	s.inFlight[op.P] = true
 	s.attempts++
 	var pre *verdictInputs
+	if strict && s.busy["migrator"] {
+		// the (one) migrate goroutine is in the middle of a pass: the plugin's picture of parked pods is in flux, the strict
+		// verdict oracle does not apply to this attempt
+		strict = false
+		s.r.Probe("strict-verdict-skipped:migration-pass-in-progress")
+	}
 	if strict {
+		// nothing else runs: let the 1s migrate ticker fire first, so that pods parked in the default quota whose quota has
+		// arrived meanwhile are where the reference model (which looks at the store) has them
+		s.busy["migrator"] = true
+		s.pl.migrateDefaultQuotaGroupsPod()
+		s.busy["migrator"] = false
 		pre = s.modelVerdictInputs(pod)
 	}
 	var status *fwktype.Status
 	labelled := pod.Labels[extension.LabelQuotaName] != ""
 	unknownBefore := labelled && !s.quotaKnown(pod)
+	rebuildsBefore, rebuildingBefore := s.rebuildSeq, s.rebuildActive > 0
 	s.aroundPodEvent(pod, func() { _, status = s.pl.PreFilter(context.TODO(), framework.NewCycleState(), pod, nil) })
+	if s.cfg.Runtime && status.IsSuccess() && (rebuildingBefore || s.rebuildSeq != rebuildsBefore) {
+		// history class of a recorded finding (known_findings.jsonl): a tree rebuild was handled while this PreFilter was
+		// in flight. PreFilter refreshes the runtime, then reads used and, separately, the runtime of the quota; the rebuild
+		// clears the runtime of every quota in place, so the limit read after it is empty and the pod is admitted
+		// against no limit at all
+		s.r.Tag("prefilter-overlaps-tree-rebuild")
+	}
 	if status.IsSuccess() && labelled && (unknownBefore || !s.quotaKnown(pod)) {
 		// history class of a recorded finding (known_findings.jsonl): the pod is admitted while the plugin does not know the
-		// pod's own quota (the quota informer lags the scheduling queue): the decision is taken against the default quota,
-		// and the later migration charges the real quota without any limit check
-		s.r.Tag("admitted-while-own-quota-unknown")
+		// pod's own quota (the quota informer lags the scheduling queue, or the quota does not exist yet): the decision is
+		// taken against the default quota, and the later migration charges the real quota without any limit check. The
+		// class begins when that quota reaches the plugin (see deliver); a label that never names a quota is plain
+		// default-quota usage.
+		s.admittedUnknown[pod.Labels[extension.LabelQuotaName]] = true
+		if s.quotaKnown(pod) {
+			s.r.Tag("admitted-while-own-quota-unknown")
+		}
 	}
 	s.r.Event("prefilter %s %v", op.P, status.Code())
 	if strict {
@@ -1110,7 +1177,7 @@ func (s *qSim) cycle(op qOp, strict bool) {
 }
 
 func (quotaEngine) Execute(r *sim.Run) {
-	s := &qSim{r: r, st: newQStore(), queues: map[string][]qEvent{}, busy: map[string]bool{}, delivered: map[string]*corev1.Pod{}, processed: map[string]*corev1.Pod{}, knownQuotas: map[string]bool{}, inFlight: map[string]bool{}, foreign: map[string]bool{}, everScheduled: map[string]bool{}}
+	s := &qSim{r: r, st: newQStore(), queues: map[string][]qEvent{}, busy: map[string]bool{}, delivered: map[string]*corev1.Pod{}, processed: map[string]*corev1.Pod{}, knownQuotas: map[string]bool{}, admittedUnknown: map[string]bool{}, inFlight: map[string]bool{}, foreign: map[string]bool{}, everScheduled: map[string]bool{}}
 	r.Plan.GetCfg(&s.cfg)
 	var ops []qOp
 	r.Plan.GetOps(&ops)
@@ -1186,6 +1253,11 @@ func (quotaEngine) Execute(r *sim.Run) {
 				if removedChild != nil && removedChild.Parent != extension.RootQuotaName {
 					// with ElasticQuotaGuaranteeUsage on, the old parent's allocated keeps the removed child's guaranteed amount
 					r.Tag("guarantee-gate-child-removed")
+				}
+				if removedChild != nil && op.K == "quota_reparent" && len(s.st.children(op.Q)) > 0 {
+					// with ElasticQuotaGuaranteeUsage on, a re-parented quota that has children loses its own allocated
+					// (the sum of its children's guaranteed amounts) until a child's used changes
+					r.Tag("guarantee-gate-parent-reparented")
 				}
 				r.OpDone()
 				r.Sample("%s q=%s p=%s n=%s parent=%s", op.K, op.Q, op.P, op.N, op.Parent)
@@ -1265,7 +1337,8 @@ func (quotaEngine) Execute(r *sim.Run) {
 		if s.cfg.Migrator {
 			r.SpawnDaemon("migrator", func() {
 				for k := 0; k < 3; k++ {
-					r.Yield("migrator")
+					// (there is ONE migrate goroutine: a pass never overlaps the pass a strict attempt lets fire)
+					r.WaitUntil("migrator", func() bool { return !s.busy["migrator"] })
 					s.busy["migrator"] = true
 					s.pl.migrateDefaultQuotaGroupsPod()
 					s.busy["migrator"] = false
